@@ -1,10 +1,156 @@
+import PdshVerif.Base.Hex
+import PdshVerif.Relay.Model
+import PdshVerif.Relay.Spec
 import Driver.Util
 
-/-! engine stub: filled in by the owner of this engine (see FRAMEWORK.md) -/
-namespace Driver.RelayDrv
+/-! line protocol of the relay engine (same op lines as harness/relay_harness.c):
 
-def main (_args : List String) : IO UInt32 := do
-  IO.eprintln "engine not implemented"
-  return 2
+    pdshmodel relay index <meta> [split|joined]   index-level cbuf model underneath
+    pdshmodel relay fifo  <meta> [split|joined]   FIFO specification + cbuf.c policy underneath
+    pdshmodel relay spec                          the property-level oracle (C05/C06)
+
+    begin L K N name_0 .. name_{N-1}  -> ok <keep_domain> <meta>
+    feed i s HEX | eof i s | drain i s | flush i   -> <ncalls> <last ret> <th->rc> | S:HEX ...
+    run i s HEX ...  (whole stream = `runStream`)   -> run <th->rc|-> | S:HEX ...
+    xrc HEX                                         -> <ret> <string left>
+
+    spec lines:  rec <o|e> L K i N name_0 .. name_{N-1} S K' em_1 .. em_K'
+                 (S = the whole byte string host i's stream carried, em_j = the observed stdio calls)
+                 -> c05=<ok|bad> c06=<ok|tail-record-split|bad> dom=<0|1> label=<hex of the expected prefix>
+-/
+namespace Driver.RelayDrv
+open PdshVerif PdshVerif.Relay
+
+structure Host (β : Type) where
+  name : Bytes
+  out  : Stream β
+  err  : Stream β
+  rc   : Int
+
+structure Case (β : Type) where
+  cfg   : Cfg
+  hosts : Array (Host β)
+
+def emsText (ems : List Em) : String :=
+  String.join (ems.map fun e => s!" {e.stream}:{Hex.encode e.bytes}")
+
+def answer (n : Nat) (ret rc : Int) (ems : List Em) : String := s!"{n} {ret} {rc} |" ++ emsText ems
+
+def step (ops : BufOps β) (mk : Option β) (sizeMeta : Nat) (split : Bool)
+    (st : Option (Case β)) (line : String) : Option (Case β) × String :=
+  match Driver.words line with
+  | "begin" :: l :: k :: n :: names =>
+    match n.toNat?, mk, names.mapM Hex.decode with
+    | some n, some b0, some names =>
+      if n = 0 ∨ names.length ≠ n then (st, "bad-op")
+      else
+        let keep := keepDomain (k ≠ "0") names
+        let fresh : Stream β := { buf := b0, pipe := [], weof := false, closed := false }
+        let hosts := names.toArray.map fun nm => ({ name := nm, out := fresh, err := fresh, rc := 0 } : Host β)
+        (some { cfg := { labels := l ≠ "0", keep := keep, tailSplit := split }, hosts := hosts },
+         s!"ok {if keep then 1 else 0} {sizeMeta}")
+    | _, _, _ => (st, "bad-op")
+  | ["xrc", hx] =>
+    match Hex.decode hx with
+    | some b => let (r, c) := extractRc b; (st, s!"{r} {Hex.encode c}")
+    | none => (st, "bad-op")
+  | op :: i :: rest =>
+    match st, i.toNat? with
+    | none, _ => (st, "no-case")
+    | some cs, some i =>
+      if h : i < cs.hosts.size then
+        let host := cs.hosts[i]
+        let t0 := (cs.hosts[0]?.map (·.name)).getD []
+        if op = "flush" then
+          let (bo, eo) := flushOutput ops cs.cfg host.name t0 1 host.out.buf host.rc
+          let (be, ee) := flushOutput ops cs.cfg host.name t0 2 host.err.buf host.rc
+          let host' := { host with out := { host.out with buf := bo }, err := { host.err with buf := be } }
+          (some { cs with hosts := cs.hosts.set i host' }, answer 2 0 host.rc (eo ++ ee))
+        else
+          match rest with
+          | s :: more =>
+            let isErr := s.startsWith "e"
+            let strm : Stream β := if isErr then host.err else host.out
+            let put (strm' : Stream β) (rc : Int) : Option (Case β) :=
+              let host' := if isErr then { host with err := strm', rc := rc } else { host with out := strm', rc := rc }
+              some { cs with hosts := cs.hosts.set i host' }
+            let sno : Nat := if isErr then 2 else 1
+            let readRc := !isErr
+            if strm.closed then (st, "closed")
+            else if op = "feed" then
+              match Hex.decode (more.head?.getD "-") with
+              | some bs =>
+                if strm.weof ∧ !bs.isEmpty then (st, "bad-op")
+                else
+                  let (r, strm', rc', ems) :=
+                    handle ops cs.cfg host.name sno readRc { strm with pipe := strm.pipe ++ bs } host.rc
+                  (put strm' rc', answer 1 r rc' ems)
+              | none => (st, "bad-op")
+            else if op = "eof" then
+              let (r, strm', rc', ems) := handle ops cs.cfg host.name sno readRc { strm with weof := true } host.rc
+              (put strm' rc', answer 1 r rc' ems)
+            else if op = "run" then
+              -- a whole stream at once: `runStream`, the function the theorems of Props/C05, C06 are about
+              match more.mapM Hex.decode with
+              | some chunks =>
+                let r := runStream ops cs.cfg host.name t0 sno readRc strm.buf chunks
+                let strm' : Stream β := { buf := r.buf, pipe := [], weof := true, closed := true }
+                (put strm' (if isErr then host.rc else r.rc),
+                 s!"run {if isErr then "-" else toString r.rc} |" ++ emsText r.ems)
+              | none => (st, "bad-op")
+            else if op = "drain" then
+              if !strm.weof then (st, "bad-op not-eof")
+              else
+                let (k, r, strm', rc', ems) :=
+                  drain ops cs.cfg host.name sno readRc (strm.pipe.length + 1) strm host.rc [] 0
+                (put strm' rc', answer k r rc' ems)
+            else (st, "bad-op")
+          | [] => (st, "bad-op")
+      else (st, "bad-op")
+    | _, none => (st, "bad-op")
+  | _ => (st, "bad-op")
+
+/-- the property-level oracle; also the Lean-side validator of the domain (`Spec.Dom05` on the
+    stream, C strings for the names, host name shorter than LINEBUFSIZE): the check applies the
+    oracle only where `dom=1` -/
+def specLine (line : String) : String :=
+  match Driver.words line with
+  | "rec" :: kind :: l :: k :: i :: n :: rest =>
+    match i.toNat?, n.toNat? with
+    | some i, some n =>
+      match (rest.take n).mapM Hex.decode, (rest.drop n) with
+      | some names, s :: _ :: ems =>
+        match Hex.decode s, ems.mapM Hex.decode, names[i]? with
+        | some s, some ems, some h =>
+          let p := Spec.recPrefix (l ≠ "0") (k ≠ "0") names h
+          let c05 := if Spec.c05Ok p s ems then "ok" else "bad"
+          let c06 := if Spec.c06Ok p s ems then "ok"
+                     else if Spec.tailSplitForm p s ems then "tail-record-split" else "bad"
+          let marker : Option Bytes := if kind = "o" then some magic else none
+          let nameOk := names.all (fun t => t.all (· ≠ 0)) && decide (h.length < Gen.LINEBUFSIZE)
+          let dom := Spec.Dom05 marker s && nameOk
+          s!"c05={c05} c06={c06} dom={if dom then 1 else 0} label={Hex.encode p}"
+        | _, _, _ => "bad-op"
+      | _, _ => "bad-op"
+    | _, _ => "bad-op"
+  | _ => "bad-op"
+
+def splitArg (a : List String) : Bool :=
+  match a with
+  | ["split"] => true
+  | ["joined"] => false
+  | _ => tailSplitOfCode
+
+def main (args : List String) : IO UInt32 := do
+  let stdin ← IO.getStdin
+  match args with
+  | "index" :: m :: rest =>
+    let m := m.toNat?.getD 1
+    Driver.forLines stdin (none : Option (Case Cbuf.Cbuf)) (step indexOps (mkIndexBuf m) m (splitArg rest)); return 0
+  | "fifo" :: m :: rest =>
+    let m := m.toNat?.getD 1
+    Driver.forLines stdin (none : Option (Case PBuf)) (step fifoOps (mkFifoBuf m) m (splitArg rest)); return 0
+  | ["spec"] => Driver.forLines stdin () (fun _ l => ((), specLine l)); return 0
+  | _ => IO.eprintln "usage: pdshmodel relay index|fifo <meta> [split|joined] | spec"; return 2
 
 end Driver.RelayDrv
